@@ -48,6 +48,14 @@ Proof.
   f_equal. apply IH. reflexivity.
 Qed.
 
+Lemma firstn_zip {A} (pre : list A) x l n :
+  S (length pre) = n -> firstn n (pre ++ x :: l) = pre ++ [x].
+Proof.
+  intros H. replace (pre ++ x :: l) with ((pre ++ [x]) ++ l)
+    by (rewrite <- app_assoc; reflexivity).
+  apply firstn_app_exact. rewrite app_length. cbn. lia.
+Qed.
+
 Lemma skipn_app_exact {A} (l1 l2 : list A) n :
   length l1 = n -> skipn n (l1 ++ l2) = l2.
 Proof.
@@ -57,8 +65,9 @@ Qed.
 
 Lemma last_cons_default {A} (l : list A) x d : last (x :: l) d = last l x.
 Proof.
-  revert x. induction l as [|y l IH]; intros x; [reflexivity|].
-  change (last (x :: y :: l) d) with (last (y :: l) d). rewrite IH, IH. reflexivity.
+  revert x d. induction l as [|y l IH]; intros x d; [reflexivity|].
+  change (last (x :: y :: l) d) with (last (y :: l) d).
+  rewrite (IH y d), (IH y x). reflexivity.
 Qed.
 
 Lemma last_app_default {A} (l1 l2 : list A) d : last (l1 ++ l2) d = last l2 (last l1 d).
@@ -123,6 +132,10 @@ Proof.
   cbn [app scanl]. rewrite IH, last_cons_default. reflexivity.
 Qed.
 
+Lemma Forall2_len {A B} (R : A -> B -> Prop) l1 l2 :
+  Forall2 R l1 l2 -> length l1 = length l2.
+Proof. induction 1; cbn; congruence. Qed.
+
 (** advancing the zipper over freshly written rows *)
 Lemma zip_advance {A} (rows : list A) : forall pre cur Y,
   exists pre', pre ++ cur :: rows ++ Y = pre' ++ last rows cur :: Y /\
@@ -137,45 +150,959 @@ Proof.
 Qed.
 
 (** decidable equality of provenance terms *)
+Scheme bterm_mut := Induction for bterm Sort Prop
+  with pterm_mut := Induction for pterm Sort Prop.
+Combined Scheme bterm_pterm_mutind from bterm_mut, pterm_mut.
+
 Lemma bterm_pterm_eqb_spec :
   (forall a b, bterm_eqb a b = true <-> a = b) /\
   (forall a b, pterm_eqb a b = true <-> a = b).
 Proof.
-  assert (H : forall n,
-    (forall a, (fix sz (t : bterm) := match t with
-                  | BStep _ r _ => S (sz r) | BOfPub p => S (szp p) | BGarbage => 0 end
-                with szp (t : pterm) := match t with
-                  | PToPub r => S (sz r) | PGiven _ => 0 | PZeroVd p => S (szp p) end
-                for sz) a <= n -> forall b, bterm_eqb a b = true <-> a = b) /\
-    (forall a, (fix sz (t : bterm) := match t with
-                  | BStep _ r _ => S (sz r) | BOfPub p => S (szp p) | BGarbage => 0 end
-                with szp (t : pterm) := match t with
-                  | PToPub r => S (sz r) | PGiven _ => 0 | PZeroVd p => S (szp p) end
-                for szp) a <= n -> forall b, pterm_eqb a b = true <-> a = b)).
-  { induction n as [|n [IHb IHp]]; split; intros a Ha b.
-    - destruct a; cbn in Ha; try lia. destruct b; cbn; split; intros; try discriminate; auto.
-    - destruct a; cbn in Ha; try lia. destruct b; cbn; split; intros H; try discriminate.
-      + apply Nat.eqb_eq in H. subst; auto.
-      + inversion H; subst. apply Nat.eqb_refl.
-    - destruct a as [f r i|p|]; destruct b as [f' r' i'|p'|]; cbn;
-        split; intros H; try discriminate; auto.
-      + apply andb_true_iff in H. destruct H as [H H3].
-        apply andb_true_iff in H. destruct H as [H1 H2].
-        apply Bool.eqb_prop in H1. apply Nat.eqb_eq in H2.
-        apply IHb in H3; [|cbn in Ha; lia]. subst. reflexivity.
-      + inversion H; subst. rewrite Bool.eqb_reflx, Nat.eqb_refl. cbn.
-        apply IHb; [cbn in Ha; lia|reflexivity].
-      + apply IHp in H; [|cbn in Ha; lia]. subst; reflexivity.
-      + inversion H; subst. apply IHp; [cbn in Ha; lia|reflexivity].
-    - destruct a as [r|i|p]; destruct b as [r'|i'|p']; cbn;
-        split; intros H; try discriminate; auto.
-      + apply IHb in H; [|cbn in Ha; lia]. subst; reflexivity.
-      + inversion H; subst. apply IHb; [cbn in Ha; lia|reflexivity].
-      + apply Nat.eqb_eq in H. subst; auto.
-      + inversion H; subst. apply Nat.eqb_refl.
-      + apply IHp in H; [|cbn in Ha; lia]. subst; reflexivity.
-      + inversion H; subst. apply IHp; [cbn in Ha; lia|reflexivity]. }
-  split; intros a b.
-  - eapply (proj1 (H _)). apply le_n.
-  - eapply (proj2 (H _)). apply le_n.
+  apply bterm_pterm_mutind.
+  - intros f r IH i b. destruct b as [f' r' i'|p'|]; cbn; split; intros H; try discriminate.
+    + apply andb_true_iff in H. destruct H as [H H3].
+      apply andb_true_iff in H. destruct H as [H1 H2].
+      apply Bool.eqb_prop in H1. apply Nat.eqb_eq in H2. apply IH in H3. subst. reflexivity.
+    + inversion H; subst. rewrite Bool.eqb_reflx, Nat.eqb_refl. cbn. apply IH. reflexivity.
+  - intros p IH b. destruct b as [f' r' i'|p'|]; cbn; split; intros H; try discriminate.
+    + apply IH in H. subst. reflexivity.
+    + inversion H; subst. apply IH. reflexivity.
+  - intros b. destruct b; cbn; split; intros H; try discriminate; reflexivity.
+  - intros r IH b. destruct b as [r'|i'|p']; cbn; split; intros H; try discriminate.
+    + apply IH in H. subst. reflexivity.
+    + inversion H; subst. apply IH. reflexivity.
+  - intros i b. destruct b as [r'|i'|p']; cbn; split; intros H; try discriminate.
+    + apply Nat.eqb_eq in H. subst. reflexivity.
+    + inversion H; subst. apply Nat.eqb_refl.
+  - intros p IH b. destruct b as [r'|i'|p']; cbn; split; intros H; try discriminate.
+    + apply IH in H. subst. reflexivity.
+    + inversion H; subst. apply IH. reflexivity.
 Qed.
+
+(** * The model *)
+
+Section IntegratorProofs.
+  Variables brow prow inc time : Type.
+  Variable kstep : bool -> brow -> inc -> brow.
+  Variable to_pub : brow -> prow.
+  Variable of_pub : prow -> brow.
+  Variable zero_vd : prow -> prow.
+  Variable inc_time : inc -> time.
+
+  Local Notation State := (state brow prow time).
+  Local Notation Op := (op prow inc).
+  Local Notation Obs := (obs prow time).
+  Local Notation stepg g := (step kstep to_pub of_pub zero_vd inc_time g).
+  Local Notation rung g := (run kstep to_pub of_pub zero_vd inc_time g).
+  Local Notation initg g := (init of_pub zero_vd g).
+  Local Notation run_initg g := (run_init kstep to_pub of_pub zero_vd inc_time g).
+  Local Notation sup := (supplied zero_vd).
+  Local Notation rows := (rows_from kstep to_pub inc_time).
+
+  (** ** The kernel loop on a zipper [pre ++ r :: cells], reading at [length pre] *)
+
+  Lemma kernel_zip b chunk : forall pre r cells,
+    kernel kstep b (pre ++ r :: cells) (length pre) chunk =
+    if length chunk <=? length cells
+    then Some (pre ++ r :: scanl (kstep b) r chunk ++ skipn (length chunk) cells)
+    else None.
+  Proof.
+    induction chunk as [|i rest IH]; intros pre r cells.
+    - reflexivity.
+    - cbn [kernel]. rewrite nth_error_app_here, upd_app_next.
+      destruct cells as [|c cs]; [reflexivity|].
+      replace (pre ++ r :: kstep b r i :: cs) with ((pre ++ [r]) ++ kstep b r i :: cs)
+        by (rewrite <- app_assoc; reflexivity).
+      replace (S (length pre)) with (length (pre ++ [r]))
+        by (rewrite app_length; cbn; lia).
+      rewrite IH. cbn [length scanl skipn Nat.leb].
+      destruct (length rest <=? length cs); [|reflexivity].
+      rewrite <- app_assoc. reflexivity.
+  Qed.
+
+  Lemma grow_spec g (bf : list brow) req :
+    exists extra, grow g bf req = bf ++ extra /\ req <= length bf + length extra.
+  Proof.
+    unfold grow. destruct (Nat.ltb_spec (length bf) req) as [H|H].
+    - eexists. split; [reflexivity|]. rewrite repeat_length. lia.
+    - exists []. rewrite app_nil_r. split; [reflexivity|]. cbn. lia.
+  Qed.
+
+  Lemma rows_length b r c : length (rows b r c) = length c.
+  Proof.
+    unfold rows_from. rewrite combine_length, !map_length, scanl_length. lia.
+  Qed.
+
+  Lemma rows_app b r l1 l2 :
+    rows b r (l1 ++ l2) = rows b r l1 ++ rows b (last (scanl (kstep b) r l1) r) l2.
+  Proof.
+    unfold rows_from. rewrite scanl_app, !map_app, combine_app; [reflexivity|].
+    rewrite !map_length, scanl_length. reflexivity.
+  Qed.
+
+  Lemma rows_fst b r c : map fst (rows b r c) = map inc_time c.
+  Proof.
+    unfold rows_from. apply map_fst_combine. rewrite !map_length, scanl_length. reflexivity.
+  Qed.
+
+  (** [Zip s pre cur cells]: the buffer is [pre ++ cur :: cells] and [cur] is row [n_data - 1]. *)
+  Definition Zip (s : State) (pre : list brow) (cur : brow) (cells : list brow) : Prop :=
+    buf s = pre ++ cur :: cells /\ S (length pre) = length (traj s).
+
+  Lemma integrate_core_zip g s c pre cur cells :
+    Zip s pre cur cells ->
+    exists cells',
+      integrate_core kstep to_pub inc_time g s c =
+      Some (pre ++ cur :: scanl (kstep (with_alt s)) cur c ++ cells', rows (with_alt s) cur c).
+  Proof.
+    intros [Hb Hl]. unfold integrate_core. rewrite <- Hl.
+    destruct (grow_spec g (buf s) (S (length pre) + length c)) as [extra [Hg Hle]].
+    rewrite Hg, Hb, <- app_assoc. cbn [app]. rewrite kernel_zip.
+    rewrite Hb, !app_length in Hle. cbn [length] in Hle.
+    replace (length c <=? length (cells ++ extra)) with true
+      by (symmetry; apply Nat.leb_le; rewrite app_length; lia).
+    rewrite skipn_zip, firstn_app_exact by apply scanl_length.
+    rewrite scanl_length, Nat.eqb_refl.
+    eexists. reflexivity.
+  Qed.
+
+  Lemma step_integrate_zip g s c pre cur cells :
+    Zip s pre cur cells ->
+    exists cells',
+      stepg g s (Integrate c) =
+      Some (mkState (with_alt s) (traj s ++ rows (with_alt s) cur c)
+                    (pre ++ cur :: scanl (kstep (with_alt s)) cur c ++ cells'),
+            OFrame (lastn (S (length c)) (traj s ++ rows (with_alt s) cur c))).
+  Proof.
+    intros HZ. destruct (integrate_core_zip g s c _ _ _ HZ) as [cells' E].
+    exists cells'. cbn [step]. rewrite E. reflexivity.
+  Qed.
+
+  Lemma step_predict_zip g s i pre cur cells :
+    Zip s pre cur cells ->
+    exists cells',
+      stepg g s (Predict i) =
+      Some (mkState (with_alt s) (traj s) (pre ++ cur :: kstep (with_alt s) cur i :: cells'),
+            ORow (inc_time i, to_pub (kstep (with_alt s) cur i))).
+  Proof.
+    intros HZ. destruct (integrate_core_zip g s [i] _ _ _ HZ) as [cells' E].
+    exists cells'. cbn [step]. rewrite E. reflexivity.
+  Qed.
+
+  Lemma step_get_snoc g s tpre tl :
+    traj s = tpre ++ [tl] ->
+    stepg g s GetPva = Some (s, ORow tl) /\ stepg g s GetTime = Some (s, OTime (fst tl)).
+  Proof.
+    intros E. cbn [step]. rewrite E, last_opt_snoc. auto.
+  Qed.
+
+  Lemma step_setpva_zip g s p pre cur cells tpre tl :
+    Zip s pre cur cells -> traj s = tpre ++ [tl] ->
+    stepg g s (SetPva p) =
+    Some (mkState (with_alt s) (tpre ++ [(fst tl, sup (with_alt s) p)])
+                  (pre ++ of_pub (sup (with_alt s) p) :: cells), OUnit).
+  Proof.
+    intros [Hb Hl] E. cbn [step]. rewrite E in *. rewrite app_length in *. cbn [length] in *.
+    rewrite Nat.add_1_r in *. rewrite nth_error_app_here.
+    assert (Hlen : length pre = length tpre) by lia.
+    rewrite Hb, <- Hlen, upd_app_here, Hlen, upd_app_here. reflexivity.
+  Qed.
+
+  (** ** (a) Invariant: non-empty trajectory, valid prefix, all accesses in bounds *)
+
+  Local Notation row_ok := (row_ok to_pub of_pub).
+  Local Notation valid_prefix := (valid_prefix to_pub of_pub).
+  Local Notation Inv := (Inv to_pub of_pub).
+
+  Lemma Inv_bounds (s : State) : Inv s -> 1 <= length (traj s) <= length (buf s).
+  Proof.
+    intros [H1 H2]. split; [exact H1|].
+    apply Forall2_len in H2. rewrite firstn_length in H2. lia.
+  Qed.
+
+  Lemma bounds_Zip (s : State) :
+    1 <= length (traj s) <= length (buf s) ->
+    exists pre cur cells tpre tl,
+      Zip s pre cur cells /\ traj s = tpre ++ [tl] /\
+      firstn (length (traj s)) (buf s) = pre ++ [cur].
+  Proof.
+    intros [H1 H2].
+    destruct (nonempty_snoc (traj s) H1) as [tpre [tl Et]].
+    assert (Hn : length (traj s) = S (length tpre))
+      by (rewrite Et, app_length; cbn; lia).
+    pose proof (firstn_skipn (length tpre) (buf s)) as Hsplit.
+    destruct (skipn (length tpre) (buf s)) as [|cur cells] eqn:Esk.
+    { apply (f_equal (@length _)) in Esk. rewrite skipn_length in Esk. cbn in Esk. lia. }
+    exists (firstn (length tpre) (buf s)), cur, cells, tpre, tl.
+    assert (Hfl : length (firstn (length tpre) (buf s)) = length tpre)
+      by (rewrite firstn_length; lia).
+    split; [|split].
+    - split; [symmetry; exact Hsplit|]. rewrite Hfl. lia.
+    - exact Et.
+    - rewrite <- Hsplit at 1. rewrite Hn.
+      replace (firstn (length tpre) (buf s) ++ cur :: cells)
+        with ((firstn (length tpre) (buf s) ++ [cur]) ++ cells)
+        by (rewrite <- app_assoc; reflexivity).
+      apply firstn_app_exact. rewrite app_length, Hfl. cbn. lia.
+  Qed.
+
+  Lemma Zip_firstn s pre cur cells :
+    Zip s pre cur cells -> firstn (length (traj s)) (buf s) = pre ++ [cur].
+  Proof.
+    intros [Hb Hl]. rewrite Hb. apply firstn_zip. exact Hl.
+  Qed.
+
+  Lemma Forall2_snoc_inv {A B} (R : A -> B -> Prop) l1 x l2 y :
+    Forall2 R (l1 ++ [x]) (l2 ++ [y]) -> Forall2 R l1 l2 /\ R x y.
+  Proof.
+    intros H. apply Forall2_app_inv_l in H. destruct H as [m1 [m2 [H1 [H2 E]]]].
+    inversion H2 as [|? b ? m2' Hxy Hnil]; subst. inversion Hnil; subst.
+    apply app_inj_tail in E. destruct E; subst. auto.
+  Qed.
+
+  Lemma rows_ok b cur c :
+    Forall2 row_ok (scanl (kstep b) cur c) (rows b cur c).
+  Proof.
+    unfold rows_from. revert cur. induction c as [|i c IH]; intros cur; cbn; constructor.
+    - left. reflexivity.
+    - apply IH.
+  Qed.
+
+  (** every operation succeeds from a state satisfying the invariant, and re-establishes it *)
+  Theorem step_Inv g s o :
+    Inv s -> exists s' ob, stepg g s o = Some (s', ob) /\ Inv s' /\ with_alt s' = with_alt s.
+  Proof.
+    intros HI. pose proof (Inv_bounds s HI) as Hbd. destruct HI as [_ Hvp].
+    destruct (bounds_Zip s Hbd) as [pre [cur [cells [tpre [tl [HZ [Et Hf]]]]]]].
+    unfold Integrator.valid_prefix in Hvp. rewrite Hf in Hvp.
+    destruct o as [c|i| | |p].
+    - destruct (step_integrate_zip g s c _ _ _ HZ) as [cells' E].
+      eexists _, _. split; [exact E|]. split; [|reflexivity].
+      split; cbn [traj buf].
+      + rewrite app_length. lia.
+      + unfold Integrator.valid_prefix. cbn [traj buf].
+        replace (pre ++ cur :: scanl (kstep (with_alt s)) cur c ++ cells')
+          with (((pre ++ [cur]) ++ scanl (kstep (with_alt s)) cur c) ++ cells')
+          by (rewrite <- !app_assoc; reflexivity).
+        rewrite firstn_app_exact.
+        * apply Forall2_app; [exact Hvp|apply rows_ok].
+        * destruct HZ as [_ Hl].
+          rewrite !app_length, rows_length, scanl_length, <- Hl. cbn. lia.
+    - destruct (step_predict_zip g s i _ _ _ HZ) as [cells' E].
+      eexists _, _. split; [exact E|]. split; [|reflexivity].
+      split; cbn [traj buf]; [lia|].
+      unfold Integrator.valid_prefix. cbn [traj buf].
+      rewrite firstn_zip by apply HZ. exact Hvp.
+    - destruct (step_get_snoc g s _ _ Et) as [E _].
+      eexists _, _. split; [exact E|]. split; [|reflexivity].
+      split; [lia|]. unfold Integrator.valid_prefix. rewrite Hf. exact Hvp.
+    - destruct (step_get_snoc g s _ _ Et) as [_ E].
+      eexists _, _. split; [exact E|]. split; [|reflexivity].
+      split; [lia|]. unfold Integrator.valid_prefix. rewrite Hf. exact Hvp.
+    - pose proof (step_setpva_zip g s p _ _ _ _ _ HZ Et) as E.
+      eexists _, _. split; [exact E|]. split; [|reflexivity].
+      rewrite Et in Hvp. apply Forall2_snoc_inv in Hvp. destruct Hvp as [Hvp _].
+      split; cbn [traj buf].
+      + rewrite app_length. cbn. lia.
+      + unfold Integrator.valid_prefix. cbn [traj buf].
+        rewrite firstn_zip.
+        * apply Forall2_app; [exact Hvp|]. constructor; [|constructor].
+          right. reflexivity.
+        * destruct HZ as [_ Hl]. rewrite Hl, Et, !app_length. reflexivity.
+  Qed.
+
+  Theorem run_Inv g ops : forall s,
+    Inv s -> exists s' os, rung g s ops = Some (s', os) /\ Inv s' /\ with_alt s' = with_alt s
+                           /\ length os = length ops.
+  Proof.
+    induction ops as [|o ops IH]; intros s HI.
+    - exists s, []. cbn. auto.
+    - destruct (step_Inv g s o HI) as [s1 [ob [E [HI1 Hw1]]]].
+      destruct (IH s1 HI1) as [s2 [os [E2 [HI2 [Hw2 Hlen]]]]].
+      exists s2, (ob :: os). cbn [run]. rewrite E, E2. cbn [length].
+      repeat split; try apply HI2; congruence.
+  Qed.
+
+  Lemma init_Some g b cap (t0 : time) p :
+    1 <= cap ->
+    initg g b cap t0 p =
+    Some (mkState b [(t0, sup b p)] (of_pub (sup b p) :: repeat g (cap - 1))).
+  Proof.
+    intros H. unfold init. destruct cap as [|k]; [lia|]. cbn. rewrite Nat.sub_0_r. reflexivity.
+  Qed.
+
+  Lemma init_None g b (t0 : time) p : initg g b 0 t0 p = None.
+  Proof. reflexivity. Qed.
+
+  Lemma init_Inv g b cap (t0 : time) p s :
+    initg g b cap t0 p = Some s ->
+    Inv s /\ with_alt s = b /\ traj s = [(t0, sup b p)] /\ length (buf s) = cap.
+  Proof.
+    intros H. destruct cap as [|k]; [discriminate|].
+    rewrite init_Some in H by lia. inversion H; subst; clear H. cbn [traj buf with_alt].
+    repeat split; cbn.
+    - lia.
+    - unfold Integrator.valid_prefix. cbn. constructor; [|constructor]. right. reflexivity.
+    - rewrite repeat_length. lia.
+  Qed.
+
+  Theorem writes_in_bounds_gen g b cap (t0 : time) p ops :
+    1 <= cap ->
+    exists s os, run_initg g b cap t0 p ops = Some (s, os) /\ Inv s /\
+                 1 <= length (traj s) <= length (buf s) /\ length os = length ops.
+  Proof.
+    intros Hc. unfold run_init. rewrite init_Some by exact Hc.
+    destruct (init_Inv g b cap t0 p _ (init_Some g b cap t0 p Hc)) as [HI _].
+    destruct (run_Inv g ops _ HI) as [s [os [E [HI' [_ Hlen]]]]].
+    exists s, os. repeat split; try apply (Inv_bounds s HI'); auto; apply HI'.
+  Qed.
+
+  (** ** (e) integrate returns the previous last row followed by the appended rows;
+         (c) predict returns the row the next integrate of that increment appends *)
+
+  Theorem integrate_returns_tail_gen g s c s' ob :
+    Inv s -> stepg g s (Integrate c) = Some (s', ob) ->
+    exists tpre tl new,
+      traj s = tpre ++ [tl] /\ traj s' = traj s ++ new /\ length new = length c /\
+      map fst new = map inc_time c /\ ob = OFrame (tl :: new).
+  Proof.
+    intros HI E. pose proof (Inv_bounds s HI) as Hbd.
+    destruct (bounds_Zip s Hbd) as [pre [cur [cells [tpre [tl [HZ [Et _]]]]]]].
+    destruct (step_integrate_zip g s c _ _ _ HZ) as [cells' E'].
+    rewrite E' in E. inversion E; subst; clear E. cbn [traj].
+    exists tpre, tl, (rows (with_alt s) cur c).
+    repeat split; auto using rows_length, rows_fst.
+    f_equal. rewrite Et, <- app_assoc. apply lastn_app_exact.
+    cbn. rewrite rows_length. reflexivity.
+  Qed.
+
+  Theorem predict_is_next_row_gen g g' s i s1 ob1 s2 ob2 :
+    Inv s ->
+    stepg g s (Predict i) = Some (s1, ob1) ->
+    stepg g' s (Integrate [i]) = Some (s2, ob2) ->
+    exists r, ob1 = ORow r /\ fst r = inc_time i /\ traj s2 = traj s ++ [r] /\ traj s1 = traj s.
+  Proof.
+    intros HI E1 E2. pose proof (Inv_bounds s HI) as Hbd.
+    destruct (bounds_Zip s Hbd) as [pre [cur [cells [tpre [tl [HZ [Et _]]]]]]].
+    destruct (step_predict_zip g s i _ _ _ HZ) as [c1 E1'].
+    destruct (step_integrate_zip g' s [i] _ _ _ HZ) as [c2 E2'].
+    rewrite E1' in E1. rewrite E2' in E2. inversion E1; inversion E2; subst; clear E1 E2.
+    eexists. split; [reflexivity|]. cbn. auto.
+  Qed.
+
+  (** ** (c) States that differ only beyond the valid prefix (cells at index
+         >= length traj, capacity, garbage) are indistinguishable *)
+
+  Lemma equiv_refl (s : State) : equiv s s.
+  Proof. repeat split. Qed.
+
+  Lemma equiv_sym (s1 s2 : State) : equiv s1 s2 -> equiv s2 s1.
+  Proof. intros [A [B C]]. repeat split; auto. Qed.
+
+  Lemma equiv_trans (s1 s2 s3 : State) : equiv s1 s2 -> equiv s2 s3 -> equiv s1 s3.
+  Proof. intros [A [B C]] [A' [B' C']]. repeat split; congruence. Qed.
+
+  (** [step] respects [equiv], even across different garbage values *)
+  Theorem step_equiv g1 g2 s1 s2 o :
+    Inv s1 -> Inv s2 -> equiv s1 s2 ->
+    exists s1' s2' ob,
+      stepg g1 s1 o = Some (s1', ob) /\ stepg g2 s2 o = Some (s2', ob) /\ equiv s1' s2'.
+  Proof.
+    intros HI1 HI2 [Hw [Ht Hf]].
+    pose proof (Inv_bounds _ HI1) as Hb1. pose proof (Inv_bounds _ HI2) as Hb2.
+    destruct (bounds_Zip s1 Hb1) as [pre [cur [cells1 [tpre [tl [HZ1 [Et1 Hf1]]]]]]].
+    destruct (bounds_Zip s2 Hb2) as [pre2 [cur2 [cells2 [tpre2 [tl2 [HZ2 [Et2 Hf2]]]]]]].
+    rewrite Hf1, Hf2 in Hf. apply app_inj_tail in Hf. destruct Hf; subst pre2 cur2.
+    rewrite Et1 in Ht. rewrite <- Ht in Et2. apply app_inj_tail in Et2.
+    destruct Et2; subst tpre2 tl2. rewrite <- Et1 in Ht.
+    assert (Hl1 : S (length pre) = length (traj s1)) by apply HZ1.
+    destruct o as [c|i| | |p].
+    - destruct (step_integrate_zip g1 s1 c _ _ _ HZ1) as [c1 E1].
+      destruct (step_integrate_zip g2 s2 c _ _ _ HZ2) as [c2 E2].
+      rewrite <- Hw, <- Ht in E2.
+      eexists _, _, _. split; [exact E1|]. split; [exact E2|].
+      split; [reflexivity|]. split; [reflexivity|]. cbn [traj buf].
+      set (rs := scanl (kstep (with_alt s1)) cur c).
+      replace (pre ++ cur :: rs ++ c1) with ((pre ++ cur :: rs) ++ c1)
+        by (rewrite <- app_assoc; reflexivity).
+      replace (pre ++ cur :: rs ++ c2) with ((pre ++ cur :: rs) ++ c2)
+        by (rewrite <- app_assoc; reflexivity).
+      assert (L : length (pre ++ cur :: rs) =
+                  length (traj s1 ++ rows (with_alt s1) cur c)).
+      { subst rs. rewrite !app_length, rows_length. cbn [length].
+        rewrite scanl_length. lia. }
+      rewrite !firstn_app_exact by exact L. reflexivity.
+    - destruct (step_predict_zip g1 s1 i _ _ _ HZ1) as [c1 E1].
+      destruct (step_predict_zip g2 s2 i _ _ _ HZ2) as [c2 E2].
+      rewrite <- Hw, <- Ht in E2.
+      eexists _, _, _. split; [exact E1|]. split; [exact E2|].
+      split; [reflexivity|]. split; [reflexivity|]. cbn [traj buf].
+      rewrite !firstn_zip by exact Hl1. reflexivity.
+    - destruct (step_get_snoc g1 s1 _ _ Et1) as [E1 _].
+      assert (Et2 : traj s2 = tpre ++ [tl]) by congruence.
+      destruct (step_get_snoc g2 s2 _ _ Et2) as [E2 _].
+      eexists _, _, _. split; [exact E1|]. split; [exact E2|].
+      repeat split; auto. rewrite Hf1, Hf2. reflexivity.
+    - destruct (step_get_snoc g1 s1 _ _ Et1) as [_ E1].
+      assert (Et2 : traj s2 = tpre ++ [tl]) by congruence.
+      destruct (step_get_snoc g2 s2 _ _ Et2) as [_ E2].
+      eexists _, _, _. split; [exact E1|]. split; [exact E2|].
+      repeat split; auto. rewrite Hf1, Hf2. reflexivity.
+    - assert (Et2 : traj s2 = tpre ++ [tl]) by congruence.
+      pose proof (step_setpva_zip g1 s1 p _ _ _ _ _ HZ1 Et1) as E1.
+      pose proof (step_setpva_zip g2 s2 p _ _ _ _ _ HZ2 Et2) as E2.
+      rewrite <- Hw in E2.
+      eexists _, _, _. split; [exact E1|]. split; [exact E2|].
+      split; [reflexivity|]. split; [reflexivity|]. cbn [traj buf].
+      assert (L : S (length pre) = length (tpre ++ [(fst tl, sup (with_alt s1) p)])).
+      { rewrite Hl1, Et1, !app_length. reflexivity. }
+      rewrite !firstn_zip by exact L. reflexivity.
+  Qed.
+
+  Lemma step_equiv_Inv g1 g2 s1 s2 o s1' ob :
+    Inv s1 -> Inv s2 -> equiv s1 s2 -> stepg g1 s1 o = Some (s1', ob) ->
+    exists s2', stepg g2 s2 o = Some (s2', ob) /\ equiv s1' s2' /\ Inv s1' /\ Inv s2'.
+  Proof.
+    intros HI1 HI2 He E.
+    destruct (step_equiv g1 g2 s1 s2 o HI1 HI2 He) as [x1 [x2 [ob' [E1 [E2 He']]]]].
+    rewrite E1 in E. inversion E; subst; clear E.
+    exists x2. split; [exact E2|]. split; [exact He'|].
+    destruct (step_Inv g1 s1 o HI1) as [y1 [o1 [F1 [I1 _]]]].
+    destruct (step_Inv g2 s2 o HI2) as [y2 [o2 [F2 [I2 _]]]].
+    rewrite E1 in F1. rewrite E2 in F2. inversion F1; inversion F2; subst. auto.
+  Qed.
+
+  Lemma predict_equiv g s i s1 ob :
+    Inv s -> stepg g s (Predict i) = Some (s1, ob) -> equiv s s1 /\ Inv s1.
+  Proof.
+    intros HI E. pose proof (Inv_bounds s HI) as Hbd.
+    destruct (bounds_Zip s Hbd) as [pre [cur [cells [tpre [tl [HZ [Et Hf]]]]]]].
+    destruct (step_predict_zip g s i _ _ _ HZ) as [c1 E1].
+    destruct (step_Inv g s (Predict i) HI) as [y [o1 [F [I1 _]]]].
+    rewrite E in F. inversion F; subst; clear F. split; [|exact I1].
+    rewrite E1 in E. inversion E; subst; clear E.
+    split; [reflexivity|]. split; [reflexivity|]. cbn [traj buf].
+    rewrite Hf. rewrite firstn_zip by apply HZ. reflexivity.
+  Qed.
+
+  Theorem run_equiv g1 g2 ops : forall s1 s2 s1' os,
+    Inv s1 -> Inv s2 -> equiv s1 s2 -> rung g1 s1 ops = Some (s1', os) ->
+    exists s2', rung g2 s2 ops = Some (s2', os) /\ equiv s1' s2'.
+  Proof.
+    induction ops as [|o ops IH]; intros s1 s2 s1' os HI1 HI2 He E.
+    - cbn in E. inversion E; subst. exists s2. cbn. auto.
+    - cbn [run] in E. destruct (stepg g1 s1 o) as [[x1 ob]|] eqn:E1; [|discriminate].
+      destruct (rung g1 x1 ops) as [[y1 os1]|] eqn:R1; [|discriminate].
+      inversion E; subst; clear E.
+      destruct (step_equiv_Inv g1 g2 s1 s2 o x1 ob HI1 HI2 He E1) as [x2 [E2 [He' [I1 I2]]]].
+      destruct (IH x1 x2 s1' os1 I1 I2 He' R1) as [y2 [R2 He2]].
+      exists y2. cbn [run]. rewrite E2, R2. auto.
+  Qed.
+
+  (** removing every [Predict] from a history changes neither the trajectory nor
+      the valid buffer prefix nor the result of any other operation *)
+  Theorem predict_unobservable_gen g1 g2 ops : forall s1 s2 s1' os,
+    Inv s1 -> Inv s2 -> equiv s1 s2 -> rung g1 s1 ops = Some (s1', os) ->
+    exists s2',
+      rung g2 s2 (filter (fun o => negb (is_predict o)) ops)
+      = Some (s2', obs_without_predict ops os) /\ equiv s1' s2'.
+  Proof.
+    induction ops as [|o ops IH]; intros s1 s2 s1' os HI1 HI2 He E.
+    - cbn in E. inversion E; subst. exists s2. cbn. auto.
+    - cbn [run] in E. destruct (stepg g1 s1 o) as [[x1 ob]|] eqn:E1; [|discriminate].
+      destruct (rung g1 x1 ops) as [[y1 os1]|] eqn:R1; [|discriminate].
+      inversion E; subst; clear E.
+      destruct (is_predict o) eqn:Hp.
+      + destruct o; try discriminate.
+        destruct (predict_equiv g1 s1 i x1 ob HI1 E1) as [He1 I1].
+        cbn [filter is_predict negb obs_without_predict].
+        apply (IH x1 s2 s1' os1 I1 HI2); auto.
+        eapply equiv_trans; [apply equiv_sym; exact He1|exact He].
+      + destruct (step_equiv_Inv g1 g2 s1 s2 o x1 ob HI1 HI2 He E1) as [x2 [E2 [He' [I1 I2]]]].
+        destruct (IH x1 x2 s1' os1 I1 I2 He' R1) as [y2 [R2 He2]].
+        exists y2. cbn [filter obs_without_predict]. rewrite Hp. cbn [negb run].
+        rewrite E2, R2. auto.
+  Qed.
+
+  (** ** Specification by history summary
+
+      A summary records: the rows fixed before the most recent supply
+      (constructor or [SetPva]), the time and pva of that supply, and the
+      increments integrated since.  It never mentions capacity, garbage or
+      [Predict]. *)
+
+  Record summary := mkSum {
+    sm_pre : list (time * prow);
+    sm_t : time;
+    sm_q : prow;
+    sm_incs : list inc
+  }.
+
+  Definition sm_row b m : time * prow := (sm_t m, sup b (sm_q m)).
+  Definition sm_r0 b m : brow := of_pub (sup b (sm_q m)).
+  Definition sm_seg b m : list (time * prow) := sm_row b m :: rows b (sm_r0 b m) (sm_incs m).
+  Definition sm_traj b m : list (time * prow) := sm_pre m ++ sm_seg b m.
+  Definition sm_cur b m : brow := last (scanl (kstep b) (sm_r0 b m) (sm_incs m)) (sm_r0 b m).
+  Definition sm_last b m : time * prow := last (sm_seg b m) (sm_row b m).
+
+  Definition sm_step b (m : summary) (o : Op) : summary :=
+    match o with
+    | Integrate c => mkSum (sm_pre m) (sm_t m) (sm_q m) (sm_incs m ++ c)
+    | SetPva p => mkSum (sm_pre m ++ removelast (sm_seg b m)) (fst (sm_last b m)) p []
+    | _ => m
+    end.
+
+  Definition sm_obs b (m : summary) (o : Op) : Obs :=
+    match o with
+    | Integrate c => OFrame (lastn (S (length c)) (sm_traj b (sm_step b m o)))
+    | Predict i => ORow (inc_time i, to_pub (kstep b (sm_cur b m) i))
+    | GetPva => ORow (sm_last b m)
+    | GetTime => OTime (fst (sm_last b m))
+    | SetPva _ => OUnit
+    end.
+
+  Fixpoint sm_run b (m : summary) (ops : list Op) : summary * list Obs :=
+    match ops with
+    | [] => (m, [])
+    | o :: rest => let '(m', os) := sm_run b (sm_step b m o) rest in (m', sm_obs b m o :: os)
+    end.
+
+  Definition Rep b (s : State) (m : summary) : Prop :=
+    with_alt s = b /\ traj s = sm_traj b m /\
+    exists pre cells, Zip s pre (sm_cur b m) cells.
+
+  Lemma sm_traj_snoc b m : sm_traj b m = (sm_pre m ++ removelast (sm_seg b m)) ++ [sm_last b m].
+  Proof.
+    unfold sm_traj, sm_last. rewrite <- app_assoc. f_equal.
+    apply snoc_view. unfold sm_seg. discriminate.
+  Qed.
+
+  Lemma sm_traj_integrate b m c :
+    sm_traj b (sm_step b m (Integrate c)) = sm_traj b m ++ rows b (sm_cur b m) c.
+  Proof.
+    unfold sm_traj, sm_seg, sm_cur, sm_row, sm_r0. cbn [sm_step sm_pre sm_t sm_q sm_incs].
+    rewrite rows_app, <- app_assoc. reflexivity.
+  Qed.
+
+  Lemma sm_cur_integrate b m c :
+    sm_cur b (sm_step b m (Integrate c)) = last (scanl (kstep b) (sm_cur b m) c) (sm_cur b m).
+  Proof.
+    unfold sm_cur, sm_r0. cbn [sm_step sm_pre sm_t sm_q sm_incs].
+    rewrite scanl_app, last_app_default. reflexivity.
+  Qed.
+
+  Theorem Rep_step g b s m o :
+    Rep b s m -> exists s', stepg g s o = Some (s', sm_obs b m o) /\ Rep b s' (sm_step b m o).
+  Proof.
+    intros [Hw [Ht [pre [cells HZ]]]]. subst b.
+    destruct o as [c|i| | |p].
+    - destruct (step_integrate_zip g s c _ _ _ HZ) as [cells' E].
+      eexists. split.
+      + rewrite E. cbn [sm_obs]. rewrite sm_traj_integrate, <- Ht. reflexivity.
+      + split; [reflexivity|]. split.
+        * cbn [traj]. rewrite sm_traj_integrate, <- Ht. reflexivity.
+        * rewrite sm_cur_integrate.
+          destruct (zip_advance (scanl (kstep (with_alt s)) (sm_cur (with_alt s) m) c)
+                      pre (sm_cur (with_alt s) m) cells') as [pre' [Ez Lz]].
+          exists pre', cells'. split; cbn [traj buf]; [exact Ez|].
+          destruct HZ as [_ Hl].
+          rewrite Lz, scanl_length, app_length, rows_length. lia.
+    - destruct (step_predict_zip g s i _ _ _ HZ) as [cells' E].
+      eexists. split; [rewrite E; reflexivity|].
+      split; [reflexivity|]. split; [exact Ht|].
+      eexists pre, _. split; [reflexivity|apply HZ].
+    - rewrite sm_traj_snoc in Ht. destruct (step_get_snoc g s _ _ Ht) as [E _].
+      exists s. split; [exact E|]. split; [reflexivity|]. split.
+      + rewrite Ht, <- sm_traj_snoc. reflexivity.
+      + exists pre, cells. exact HZ.
+    - rewrite sm_traj_snoc in Ht. destruct (step_get_snoc g s _ _ Ht) as [_ E].
+      exists s. split; [exact E|]. split; [reflexivity|]. split.
+      + rewrite Ht, <- sm_traj_snoc. reflexivity.
+      + exists pre, cells. exact HZ.
+    - rewrite sm_traj_snoc in Ht.
+      pose proof (step_setpva_zip g s p _ _ _ _ _ HZ Ht) as E.
+      eexists. split; [exact E|]. split; [reflexivity|]. split.
+      + reflexivity.
+      + exists pre, cells. split; [reflexivity|]. cbn [traj].
+        destruct HZ as [_ Hl]. rewrite Hl, Ht, !app_length. reflexivity.
+  Qed.
+
+  Theorem Rep_run g b ops : forall s m,
+    Rep b s m ->
+    exists s', rung g s ops = Some (s', snd (sm_run b m ops)) /\ Rep b s' (fst (sm_run b m ops)).
+  Proof.
+    induction ops as [|o ops IH]; intros s m HR.
+    - exists s. cbn. auto.
+    - destruct (Rep_step g b s m o HR) as [s1 [E HR1]].
+      destruct (IH s1 _ HR1) as [s2 [E2 HR2]].
+      exists s2. cbn [run sm_run]. rewrite E, E2.
+      destruct (sm_run b (sm_step b m o) ops) as [m' os]. cbn in *. auto.
+  Qed.
+
+  Definition sm_init (t0 : time) (p : prow) : summary := mkSum [] t0 p [].
+
+  Lemma Rep_init g b cap t0 p s :
+    initg g b cap t0 p = Some s -> Rep b s (sm_init t0 p).
+  Proof.
+    intros H. destruct cap as [|k]; [discriminate|].
+    rewrite init_Some in H by lia. inversion H; subst; clear H.
+    split; [reflexivity|]. split; [reflexivity|].
+    exists [], (repeat g (S k - 1)). split; reflexivity.
+  Qed.
+
+  (** the complete behaviour of any history is given by its summary *)
+  Theorem run_init_spec g b cap t0 p ops :
+    1 <= cap ->
+    exists s, run_initg g b cap t0 p ops = Some (s, snd (sm_run b (sm_init t0 p) ops)) /\
+              Rep b s (fst (sm_run b (sm_init t0 p) ops)).
+  Proof.
+    intros Hc. unfold run_init.
+    pose proof (init_Some g b cap t0 p Hc) as Ei. rewrite Ei.
+    apply Rep_run. eapply Rep_init. exact Ei.
+  Qed.
+
+  (** ** Facts about summaries (pure) *)
+
+  Lemma sm_run_cons_fst b m o ops :
+    fst (sm_run b m (o :: ops)) = fst (sm_run b (sm_step b m o) ops).
+  Proof. cbn [sm_run]. destruct (sm_run b (sm_step b m o) ops). reflexivity. Qed.
+
+  Lemma sm_run_cons_snd b m o ops :
+    snd (sm_run b m (o :: ops)) = sm_obs b m o :: snd (sm_run b (sm_step b m o) ops).
+  Proof. cbn [sm_run]. destruct (sm_run b (sm_step b m o) ops). reflexivity. Qed.
+
+  Lemma sm_run_app_fst b ops1 ops2 : forall m,
+    fst (sm_run b m (ops1 ++ ops2)) = fst (sm_run b (fst (sm_run b m ops1)) ops2).
+  Proof.
+    induction ops1 as [|o ops1 IH]; intros m; [reflexivity|].
+    cbn [app]. rewrite !sm_run_cons_fst. apply IH.
+  Qed.
+
+  Lemma sm_run_app_snd b ops1 ops2 : forall m,
+    snd (sm_run b m (ops1 ++ ops2)) =
+    snd (sm_run b m ops1) ++ snd (sm_run b (fst (sm_run b m ops1)) ops2).
+  Proof.
+    induction ops1 as [|o ops1 IH]; intros m; [reflexivity|].
+    cbn [app]. rewrite !sm_run_cons_snd, sm_run_cons_fst, IH. reflexivity.
+  Qed.
+
+  Lemma sm_traj_length b m : length (sm_traj b m) = length (sm_pre m) + S (length (sm_incs m)).
+  Proof. unfold sm_traj, sm_seg. rewrite app_length. cbn [length]. rewrite rows_length. reflexivity. Qed.
+
+  Lemma sm_traj_setpva b m p :
+    sm_traj b (sm_step b m (SetPva p)) =
+    (sm_pre m ++ removelast (sm_seg b m)) ++ [(fst (sm_last b m), sup b p)].
+  Proof. reflexivity. Qed.
+
+  Lemma sm_q_run b ops : forall m, sm_q (fst (sm_run b m ops)) = latest_pva (sm_q m) ops.
+  Proof.
+    induction ops as [|o ops IH]; intros m; [reflexivity|].
+    rewrite sm_run_cons_fst, IH. destruct o; reflexivity.
+  Qed.
+
+  Lemma sm_incs_run b ops : forall m,
+    sm_incs (fst (sm_run b m ops)) = incs_since (sm_incs m) ops.
+  Proof.
+    induction ops as [|o ops IH]; intros m; [reflexivity|].
+    rewrite sm_run_cons_fst, IH. destruct o; reflexivity.
+  Qed.
+
+  Lemma sm_run_no_setpva b ops : forall m,
+    existsb is_setpva ops = false ->
+    fst (sm_run b m ops) = mkSum (sm_pre m) (sm_t m) (sm_q m) (sm_incs m ++ all_incs ops).
+  Proof.
+    induction ops as [|o ops IH]; intros m H.
+    - cbn. rewrite app_nil_r. destruct m; reflexivity.
+    - cbn [existsb] in H. apply orb_false_iff in H. destruct H as [Ho H].
+      rewrite sm_run_cons_fst, IH by exact H.
+      destruct o; try discriminate; cbn [sm_step sm_pre sm_t sm_q sm_incs all_incs];
+        try reflexivity.
+      rewrite app_assoc. reflexivity.
+  Qed.
+
+  (** (f) the time index: start time, then every integrated increment's time once *)
+  Lemma sm_times b ops : forall m,
+    map fst (sm_traj b (fst (sm_run b m ops))) =
+    map fst (sm_traj b m) ++ map inc_time (all_incs ops).
+  Proof.
+    induction ops as [|o ops IH]; intros m.
+    - cbn. rewrite app_nil_r. reflexivity.
+    - rewrite sm_run_cons_fst, IH. destruct o as [c|i| | |p].
+      + rewrite sm_traj_integrate. cbn [all_incs].
+        rewrite !map_app, rows_fst, app_assoc. reflexivity.
+      + reflexivity.
+      + reflexivity.
+      + reflexivity.
+      + rewrite sm_traj_setpva, (sm_traj_snoc b m). cbn [all_incs].
+        rewrite !map_app. reflexivity.
+  Qed.
+
+  (** shifting the frozen prefix: the continuation does not look at it *)
+  Definition sm_shift (tpre : list (time * prow)) (m : summary) : summary :=
+    mkSum (tpre ++ sm_pre m) (sm_t m) (sm_q m) (sm_incs m).
+
+  Lemma sm_shift_traj b tpre m : sm_traj b (sm_shift tpre m) = tpre ++ sm_traj b m.
+  Proof. unfold sm_traj. cbn [sm_shift sm_pre]. rewrite <- app_assoc. reflexivity. Qed.
+
+  Lemma sm_shift_step b tpre m o :
+    sm_step b (sm_shift tpre m) o = sm_shift tpre (sm_step b m o).
+  Proof.
+    destruct o; try reflexivity.
+    unfold sm_shift. cbn [sm_step sm_pre sm_t sm_q sm_incs].
+    rewrite <- app_assoc. reflexivity.
+  Qed.
+
+  Lemma sm_shift_obs b tpre m o : sm_obs b (sm_shift tpre m) o = sm_obs b m o.
+  Proof.
+    destruct o as [c|i| | |p]; try reflexivity.
+    unfold sm_obs. rewrite sm_shift_step, sm_shift_traj. f_equal.
+    apply lastn_app_le. rewrite sm_traj_length. cbn [sm_step sm_incs].
+    rewrite app_length. lia.
+  Qed.
+
+  Lemma sm_shift_run b tpre ops : forall m,
+    sm_run b (sm_shift tpre m) ops =
+    (sm_shift tpre (fst (sm_run b m ops)), snd (sm_run b m ops)).
+  Proof.
+    induction ops as [|o ops IH]; intros m; [reflexivity|].
+    cbn [sm_run]. rewrite sm_shift_step, IH, sm_shift_obs.
+    destruct (sm_run b (sm_step b m o) ops). reflexivity.
+  Qed.
+
+  (** ** (b) chunking, (f) times, (d) restart — from the constructor *)
+
+  Theorem integrate_chunks_gen g g' b cap cap' (t0 : time) p ops :
+    1 <= cap -> 1 <= cap' -> existsb is_setpva ops = false ->
+    exists s os s1 os1,
+      run_initg g b cap t0 p ops = Some (s, os) /\
+      run_initg g' b cap' t0 p [Integrate (all_incs ops)] = Some (s1, os1) /\
+      traj s = traj s1 /\
+      traj s = (t0, sup b p) :: rows b (of_pub (sup b p)) (all_incs ops).
+  Proof.
+    intros Hc Hc' Hns.
+    destruct (run_init_spec g b cap t0 p ops Hc) as [s [E [_ [Ht _]]]].
+    destruct (run_init_spec g' b cap' t0 p [Integrate (all_incs ops)] Hc') as [s1 [E1 [_ [Ht1 _]]]].
+    eexists s, _, s1, _. split; [exact E|]. split; [exact E1|].
+    rewrite sm_run_no_setpva in Ht by exact Hns.
+    rewrite sm_run_no_setpva in Ht1 by reflexivity.
+    cbn [all_incs] in Ht1. rewrite app_nil_r in Ht1.
+    split; [congruence|]. exact Ht.
+  Qed.
+
+  Theorem since_last_supply_gen g b cap (t0 : time) p ops :
+    1 <= cap ->
+    exists s os pre t,
+      run_initg g b cap t0 p ops = Some (s, os) /\
+      traj s = pre ++ (t, sup b (latest_pva p ops))
+                   :: rows b (of_pub (sup b (latest_pva p ops))) (incs_since [] ops).
+  Proof.
+    intros Hc. destruct (run_init_spec g b cap t0 p ops Hc) as [s [E [_ [Ht _]]]].
+    eexists s, _, _, _. split; [exact E|]. rewrite Ht.
+    unfold sm_traj, sm_seg, sm_row, sm_r0. rewrite sm_q_run, sm_incs_run. reflexivity.
+  Qed.
+
+  Theorem times_exactly_once_gen g b cap (t0 : time) p ops :
+    1 <= cap ->
+    exists s os, run_initg g b cap t0 p ops = Some (s, os) /\
+                 map fst (traj s) = t0 :: map inc_time (all_incs ops).
+  Proof.
+    intros Hc. destruct (run_init_spec g b cap t0 p ops Hc) as [s [E [_ [Ht _]]]].
+    eexists s, _. split; [exact E|]. rewrite Ht, sm_times. reflexivity.
+  Qed.
+
+  Theorem set_pva_restart_gen g g' b cap cap' (t0 : time) p0 ops1 p ops2 :
+    1 <= cap -> 1 <= cap' ->
+    exists s1 os1 s os tpre tl f osf,
+      run_initg g b cap t0 p0 ops1 = Some (s1, os1) /\ traj s1 = tpre ++ [tl] /\
+      run_initg g b cap t0 p0 (ops1 ++ SetPva p :: ops2) = Some (s, os) /\
+      run_initg g' b cap' (fst tl) p ops2 = Some (f, osf) /\
+      traj s = tpre ++ traj f /\ os = os1 ++ OUnit :: osf.
+  Proof.
+    intros Hc Hc'.
+    destruct (run_init_spec g b cap t0 p0 ops1 Hc) as [s1 [E1 [_ [Ht1 _]]]].
+    destruct (run_init_spec g b cap t0 p0 (ops1 ++ SetPva p :: ops2) Hc) as [s [E [_ [Ht _]]]].
+    set (m1 := fst (sm_run b (sm_init t0 p0) ops1)) in *.
+    destruct (run_init_spec g' b cap' (fst (sm_last b m1)) p ops2 Hc') as [f [Ef [_ [Htf _]]]].
+    eexists s1, _, s, _, (sm_pre m1 ++ removelast (sm_seg b m1)), (sm_last b m1), f, _.
+    split; [exact E1|]. split; [rewrite Ht1; apply sm_traj_snoc|].
+    split; [exact E|]. split; [exact Ef|].
+    assert (Esh : sm_step b m1 (SetPva p) =
+                  sm_shift (sm_pre m1 ++ removelast (sm_seg b m1)) (sm_init (fst (sm_last b m1)) p)).
+    { unfold sm_shift, sm_init. cbn [sm_step sm_pre sm_t sm_q sm_incs].
+      rewrite app_nil_r. reflexivity. }
+    split.
+    - rewrite Ht, Htf, sm_run_app_fst. fold m1. rewrite sm_run_cons_fst, Esh, sm_shift_run.
+      cbn [fst]. apply sm_shift_traj.
+    - rewrite sm_run_app_snd. fold m1. rewrite sm_run_cons_snd, Esh, sm_shift_run.
+      reflexivity.
+  Qed.
+
+  (** ** (c) from the constructor: capacity, garbage and predicts are unobservable *)
+
+  Lemma init_equiv g g' b cap cap' (t0 : time) p s s' :
+    initg g b cap t0 p = Some s -> initg g' b cap' t0 p = Some s' -> equiv s s'.
+  Proof.
+    intros H H'. destruct cap as [|k]; [discriminate|]. destruct cap' as [|k']; [discriminate|].
+    rewrite init_Some in H, H' by lia. inversion H; inversion H'; subst.
+    repeat split.
+  Qed.
+
+  Theorem predict_unobservable_init g g' b cap cap' (t0 : time) p ops s os :
+    1 <= cap' ->
+    run_initg g b cap t0 p ops = Some (s, os) ->
+    exists s2,
+      run_initg g' b cap' t0 p (filter (fun o => negb (is_predict o)) ops)
+      = Some (s2, obs_without_predict ops os) /\ traj s2 = traj s /\ equiv s s2.
+  Proof.
+    intros Hc' E. unfold run_init in *.
+    destruct (initg g b cap t0 p) as [s0|] eqn:Ei; [|discriminate].
+    pose proof (init_Some g' b cap' t0 p Hc') as Ei'. rewrite Ei'.
+    destruct (init_Inv g b cap t0 p _ Ei) as [HI _].
+    destruct (init_Inv g' b cap' t0 p _ Ei') as [HI' _].
+    destruct (predict_unobservable_gen g g' ops s0 _ s os HI HI'
+                (init_equiv g g' b cap cap' t0 p _ _ Ei Ei') E) as [s2 [E2 He]].
+    exists s2. split; [exact E2|]. split; [symmetry; apply He|exact He].
+  Qed.
+
+  Theorem capacity_garbage_irrelevant_gen g g' b cap cap' (t0 : time) p ops s os :
+    1 <= cap' ->
+    run_initg g b cap t0 p ops = Some (s, os) ->
+    exists s2, run_initg g' b cap' t0 p ops = Some (s2, os) /\ traj s2 = traj s /\ equiv s s2.
+  Proof.
+    intros Hc' E. unfold run_init in *.
+    destruct (initg g b cap t0 p) as [s0|] eqn:Ei; [|discriminate].
+    pose proof (init_Some g' b cap' t0 p Hc') as Ei'. rewrite Ei'.
+    destruct (init_Inv g b cap t0 p _ Ei) as [HI _].
+    destruct (init_Inv g' b cap' t0 p _ Ei') as [HI' _].
+    destruct (run_equiv g g' ops s0 _ s os HI HI'
+                (init_equiv g g' b cap cap' t0 p _ _ Ei Ei') E) as [s2 [E2 He]].
+    exists s2. split; [exact E2|]. split; [symmetry; apply He|exact He].
+  Qed.
+
+  (** ** (c), (e) stated for every reachable state *)
+
+  Theorem predict_is_next_row_reach g b cap (t0 : time) p ops i :
+    1 <= cap ->
+    exists s os s1 r s2 fr s3,
+      run_initg g b cap t0 p ops = Some (s, os) /\
+      stepg g s (Predict i) = Some (s1, ORow r) /\ fst r = inc_time i /\ traj s1 = traj s /\
+      stepg g s (Integrate [i]) = Some (s2, fr) /\ traj s2 = traj s ++ [r] /\
+      stepg g s1 (Integrate [i]) = Some (s3, fr) /\ traj s3 = traj s ++ [r].
+  Proof.
+    intros Hc.
+    destruct (writes_in_bounds_gen g b cap t0 p ops Hc) as [s [os [E [HI _]]]].
+    destruct (step_Inv g s (Predict i) HI) as [s1 [ob1 [E1 [HI1 _]]]].
+    destruct (step_Inv g s (Integrate [i]) HI) as [s2 [fr [E2 _]]].
+    destruct (predict_is_next_row_gen g g s i s1 ob1 s2 fr HI E1 E2) as [r [Hob [Hfst [Ht2 Ht1]]]].
+    subst ob1.
+    destruct (predict_equiv g s i s1 _ HI E1) as [He _].
+    destruct (step_equiv_Inv g g s s1 (Integrate [i]) s2 fr HI HI1 He E2) as [s3 [E3 [He3 _]]].
+    exists s, os, s1, r, s2, fr, s3.
+    repeat split; auto. destruct He3 as [_ [Ht3 _]]. congruence.
+  Qed.
+
+  Theorem integrate_returns_tail_reach g b cap (t0 : time) p ops c :
+    1 <= cap ->
+    exists s os s' tpre tl new,
+      run_initg g b cap t0 p ops = Some (s, os) /\ traj s = tpre ++ [tl] /\
+      stepg g s (Integrate c) = Some (s', OFrame (tl :: new)) /\
+      traj s' = traj s ++ new /\ length new = length c /\ map fst new = map inc_time c.
+  Proof.
+    intros Hc.
+    destruct (writes_in_bounds_gen g b cap t0 p ops Hc) as [s [os [E [HI _]]]].
+    destruct (step_Inv g s (Integrate c) HI) as [s' [ob [E' _]]].
+    destruct (integrate_returns_tail_gen g s c s' ob HI E') as [tpre [tl [new [A [B [C [D F]]]]]]].
+    subst ob. exists s, os, s', tpre, tl, new. auto 10.
+  Qed.
+
+  (** ** (g) Generic 2D-mode invariant (instantiated in C13 with P := (VD = 0), key := altitude) *)
+
+  Section Inv2D.
+    Variable K : Type.
+    Variable P : brow -> Prop.
+    Variable key : brow -> K.
+    Hypothesis Hstep : forall r i, P r -> P (kstep false r i) /\ key (kstep false r i) = key r.
+    Hypothesis Hsup : forall p, P (of_pub (zero_vd p)).
+
+    Lemma scanl_keeps k0 incs : forall r,
+      P r -> key r = k0 ->
+      Forall (fun r' => P r' /\ key r' = k0) (scanl (kstep false) r incs) /\
+      P (last (scanl (kstep false) r incs) r) /\ key (last (scanl (kstep false) r incs) r) = k0.
+    Proof.
+      induction incs as [|i incs IH]; intros r HP Hk.
+      - cbn. auto.
+      - destruct (Hstep r i HP) as [HP' Hk'].
+        destruct (IH (kstep false r i) HP' (eq_trans Hk' Hk)) as [HF [HL HK]].
+        cbn [scanl]. rewrite last_cons_default. split; [|auto].
+        constructor; [split; congruence|exact HF].
+    Qed.
+
+    (** In every reachable 2D state: the rows since the latest supply [q] are
+        [to_pub] of buffer rows satisfying [P] with the key of [of_pub (zero_vd q)],
+        and so is the last valid buffer row (the one every later step starts from). *)
+    Theorem inv2d_since_supply_gen g cap (t0 : time) p ops :
+      1 <= cap ->
+      exists s os pre t rs cur,
+        run_initg g false cap t0 p ops = Some (s, os) /\
+        traj s = pre ++ (t, zero_vd (latest_pva p ops))
+                     :: combine (map inc_time (incs_since [] ops)) (map to_pub rs) /\
+        rs = scanl (kstep false) (of_pub (zero_vd (latest_pva p ops))) (incs_since [] ops) /\
+        Forall (fun r => P r /\ key r = key (of_pub (zero_vd (latest_pva p ops)))) rs /\
+        nth_error (buf s) (length (traj s) - 1) = Some cur /\
+        P cur /\ key cur = key (of_pub (zero_vd (latest_pva p ops))).
+    Proof.
+      intros Hc.
+      destruct (run_init_spec g false cap t0 p ops Hc) as [s [E [_ [Ht [bp [cells [Hb Hl]]]]]]].
+      set (m := fst (sm_run false (sm_init t0 p) ops)) in *.
+      assert (Hq : sm_q m = latest_pva p ops) by apply sm_q_run.
+      assert (Hi : sm_incs m = incs_since [] ops) by apply sm_incs_run.
+      destruct (scanl_keeps (key (of_pub (zero_vd (sm_q m)))) (sm_incs m)
+                  (of_pub (zero_vd (sm_q m))) (Hsup _) eq_refl) as [HF [HL HK]].
+      eexists s, _, (sm_pre m), (sm_t m), _, (sm_cur false m).
+      split; [exact E|]. split; [|split; [reflexivity|]].
+      - rewrite Ht. unfold sm_traj, sm_seg, sm_row, sm_r0, rows_from. cbn [supplied].
+        rewrite Hq, Hi. reflexivity.
+      - rewrite <- Hq, <- Hi. split; [exact HF|]. split; [|split; [exact HL|exact HK]].
+        rewrite Hb, <- Hl. cbn [Nat.sub]. rewrite Nat.sub_0_r. apply nth_error_app_here.
+    Qed.
+
+    (** Step form: what [Integrate] appends and what [Predict] returns in a reachable 2D state. *)
+    Theorem inv2d_step_gen g cap (t0 : time) p ops s os :
+      run_initg g false cap t0 p ops = Some (s, os) ->
+      (forall g' c s' ob, stepg g' s (Integrate c) = Some (s', ob) ->
+         exists rs, traj s' = traj s ++ combine (map inc_time c) (map to_pub rs) /\
+                    length rs = length c /\
+                    Forall (fun r => P r /\ key r = key (of_pub (zero_vd (latest_pva p ops)))) rs) /\
+      (forall g' i s' ob, stepg g' s (Predict i) = Some (s', ob) ->
+         exists r, ob = ORow (inc_time i, to_pub r) /\ traj s' = traj s /\
+                   P r /\ key r = key (of_pub (zero_vd (latest_pva p ops)))).
+    Proof.
+      intros E.
+      assert (Hc : 1 <= cap).
+      { destruct cap; [|lia]. unfold run_init in E. rewrite init_None in E. discriminate. }
+      destruct (run_init_spec g false cap t0 p ops Hc) as [s0 [E0 HR]].
+      rewrite E0 in E. inversion E; subst s0; clear E.
+      set (m := fst (sm_run false (sm_init t0 p) ops)) in *.
+      assert (Hq : sm_q m = latest_pva p ops) by apply sm_q_run.
+      destruct (scanl_keeps (key (of_pub (zero_vd (sm_q m)))) (sm_incs m)
+                  (of_pub (zero_vd (sm_q m))) (Hsup _) eq_refl) as [_ [HL HK]].
+      change (P (sm_cur false m)) in HL.
+      change (key (sm_cur false m) = key (of_pub (zero_vd (sm_q m)))) in HK.
+      rewrite Hq in HK.
+      pose proof HR as [Hw [Ht [bp [cells HZ]]]].
+      split.
+      - intros g' c s' ob Es.
+        destruct (step_integrate_zip g' s c _ _ _ HZ) as [cells' Es'].
+        rewrite Es' in Es. inversion Es; subst; clear Es. cbn [traj]. rewrite Hw.
+        exists (scanl (kstep false) (sm_cur false m) c).
+        split; [reflexivity|]. split; [apply scanl_length|].
+        apply (scanl_keeps _ c _ HL HK).
+      - intros g' i s' ob Es.
+        destruct (step_predict_zip g' s i _ _ _ HZ) as [cells' Es'].
+        rewrite Es' in Es. inversion Es; subst; clear Es. cbn [traj]. rewrite Hw.
+        exists (kstep false (sm_cur false m) i).
+        split; [reflexivity|]. split; [reflexivity|].
+        destruct (Hstep (sm_cur false m) i HL) as [A B]. split; [exact A|congruence].
+    Qed.
+  End Inv2D.
+End IntegratorProofs.
